@@ -35,7 +35,9 @@ func (r ScalarSetRule) JSONValues() string {
 	}
 
 	// the list is pasted inside a string of the generated code
-	return misc.RegoStringContent(fmt.Sprintf("[%s]", strings.Join(acc, ",")))
+	// (it can end up in a line of code that goes through the $message/$node/$result template substitution when the
+	// constraint sits inside a nested validation, so '$' is hidden as well)
+	return misc.RegoStringContentNoTemplate(fmt.Sprintf("[%s]", strings.Join(acc, ",")))
 }
 
 func (r ScalarSetRule) String() string {
